@@ -431,6 +431,17 @@ func c01Cases(r *core.Run, prop string) []XZWCase {
 			}
 		}
 	}
+	// dictionary capacities that are not exactly representable: matches at distances
+	// between the next smaller representable size and the capacity
+	for _, dc := range []int{4097, 5000, 6145, 70000, 1<<20 + 1} {
+		for m := 0; m < 2; m++ {
+			if m == 1 && dc > 70000 {
+				continue
+			}
+			add(XZWCase{Cfg: XZCfg{DictCap: dc, Matcher: m}, Shape: []Seg{{K: "R", Seed: 12, N: dc - 40}, {K: "K", N: dc - 40}, {K: "T", Seed: 12, N: 500}}})
+			add(XZWCase{Cfg: XZCfg{DictCap: dc, Matcher: m, BufSize: 273}, Shape: []Seg{{K: "R", Seed: 13, N: dc - 1}, {K: "L", Lit: []byte("x")}, {K: "K", N: dc}}})
+		}
+	}
 	// BinaryTree on large incompressible data (no quadratic behaviour there)
 	add(XZWCase{Cfg: XZCfg{DictCap: 65536, Matcher: 1}, Shape: []Seg{{K: "R", Seed: 9, N: 1<<21 + 70000}}})
 	add(XZWCase{Cfg: XZCfg{DictCap: 4096, Matcher: 1}, Shape: []Seg{{K: "R", Seed: 9, N: 200000}}})
